@@ -349,6 +349,7 @@ def classify(res):
         d = res["death"] or ""
         if "asn1p_y" in d and re.search(r"(SET|SEQUENCE)\s*\(SIZE\([^)]*\)\)\s*OF\s+(SET|SEQUENCE)\s*\(SIZE", text): return [("died", "F33", d)]
         if "asn1fix_crange.c" in d and empty_range_in(text): return [("died", "F82", d)]
+        if "asn1f_find_terminal_thing" in d and re.search(r"\{[^{}]*\bNULL\b[^{}]*\}", text) and re.search(r"[A-Z][\w-]*\s*\{\s*[A-Z][\w-]*[^{}]*\}\s*::=", text): return [("died", "F88", d)]
         if res["rc"] in (-11, 139) or "SEGV" in d or "stack-overflow" in d:
             if re.search(r"([A-Z][\w-]*) ::= CHOICE \{\s*[\w-]+ \1\b", text): return [("died", "F63", d)]
         return [("died", None, d)]
